@@ -361,8 +361,23 @@ func (tc *TargetCollector) CollectMissingCounters(parentBox Box, cssToken string
 			parseAgainFunction, missingCounters,
 			missingTargetCounters)
 		key := functionKey{SourceBox: parentBox, CssToken: cssToken}
-		if _, in := tc.CounterLookupItems[key]; !in {
+		if old, in := tc.CounterLookupItems[key]; !in {
 			tc.CounterLookupItems[key] = counterLookupItem
+		} else {
+			// The content list is computed again (a pending target is now known):
+			// the first computation stopped at the pending target, the part after
+			// it may miss other counters.
+			for name := range missingCounters {
+				old.MissingCounters.Add(name)
+			}
+			for anchor, names := range missingTargetCounters {
+				if old.MissingTargetCounters[anchor] == nil {
+					old.MissingTargetCounters[anchor] = utils.Set{}
+				}
+				for name := range names {
+					old.MissingTargetCounters[anchor].Add(name)
+				}
+			}
 		}
 
 	}
